@@ -1,3 +1,4 @@
+import operator
 from dataclasses import dataclass, field
 from datetime import date
 from uuid import UUID
@@ -245,11 +246,11 @@ class RuleAttributeCondition(RuleProcessingCondition):
             )
 
         try:
-            return bool(getattr(value, self.op_methods[self.op])(compare_value))
-        # bool(NotImplemented) used to return `True` with Python<3.14
-        except TypeError:
-            return True
-        except AttributeError:  # operation not supported by value type
+            # The operator functions fall back to the reflected method of the other operand. Calling
+            # the method of the value directly returns NotImplemented (which was truthy) e.g. for an
+            # int attribute compared with a float.
+            return bool(getattr(operator, self.op_methods[self.op])(value, compare_value))
+        except TypeError:  # operation not supported between both types
             return False
 
 
